@@ -75,6 +75,8 @@ def main():
         out['iters'] = REC.ITER[0]
         out['summaries'] = sorted(REC.SEEN)[:400]
         out['n_summaries'] = len(REC.SEEN)
+        import hashlib
+        out['summ_digest'] = hashlib.sha256('\n'.join(sorted(REC.SEEN)).encode()).hexdigest()[:16]
         out['queries'] = QS['n']
         out['solver_s'] = round(QS['t'], 3)
         if job['kind'] == 'fidelity':
